@@ -476,7 +476,6 @@ def check_remove(ctx, tu, info, f):
             ctx.ob('C15.P3', lam, 'a record matches only when its handle refers to the same listener as the handle to remove', okm,
                    detail='extracted %s' % (F.show(fm) if 'fm' in dir() else '?'), key_detail='record match')
         # success is reported exactly when a record was erased
-        rets = g.return_nodes()
-        tr = [r for r in rets if g.nodes[g.strip_all_casts(g.kids(r)[0])].get('value') is True]
+        tr = [r for (r, v) in g.result_sites() if g.nodes[v].get('value') is True]      # `return true`, or `removed = true` with a result variable
         okr = len(tr) == 1 and len(er) == 1 and g.pos_dominates(g.pos(er[0]), g.pos(tr[0]))
         ctx.ob('C15.P3', g, 'true is returned exactly after a record was erased', okr, key_detail='erase result')
